@@ -166,7 +166,8 @@ class Facts:
         d, self.renamed_fields = canonicalise_fields(d)
         from .canon import tupleise_new_structs
         d, self.tupleised = tupleise_new_structs(d)
-        from .inline import inline_new_functions
+        from .inline import inline_new_functions, expose_error_conversions
+        d, self.conversions = expose_error_conversions(d)
         d, self.inlined = inline_new_functions(d)
         from .inline import desugar_combinators, thread_known_variants
         d, self.desugared = desugar_combinators(d)
